@@ -102,6 +102,7 @@ func init() {
 	Properties["C02"] = &PropertySpec{
 		Modules: st,
 		Rules: []Rule{
+			R79(),
 			R77(),
 			R73(),
 			R62(),
